@@ -113,9 +113,30 @@ def geometries():
     return out
 
 
+_IUPAC = {}
+
+
+def _allowed(ch):
+    if not _IUPAC:
+        from Bio.Data import IUPACData
+
+        _IUPAC.update({k: sorted(v) for k, v in IUPACData.ambiguous_dna_values.items()})
+    return _IUPAC[ch]
+
+
 def _letters_at(r, n, start, word, hint=None):
-    """word occurs on the circle r (concrete length n) starting at concrete position start (case-insensitive)"""
-    return And([Eq(supper_code(sat(r, (start + j) % n), hint), code_of(ch)) for j, ch in enumerate(word)])
+    """word (a recognition site, possibly with IUPAC ambiguity codes; N = any letter, as in Bio.Restriction) occurs on
+    the circle r (concrete length n) starting at concrete position start (case-insensitive)"""
+    cs = []
+    for j, ch in enumerate(word):
+        if ch == "N":
+            continue
+        u = supper_code(sat(r, (start + j) % n), hint)
+        if ch in "ACGT":
+            cs.append(Eq(u, code_of(ch)))
+        else:
+            cs.append(Or([Eq(u, code_of(c)) for c in _allowed(ch)]))
+    return And(cs)
 
 
 def is_cut(r, n, c, g):
